@@ -146,3 +146,212 @@ def rewrite_conditions(repo_root):
 
 WHOLE_REPO = {"roundtrip": roundtrip, "rename-locals": rename_locals, "rewrite-conditions": rewrite_conditions}
 EXTRA = {}
+
+
+# ----------------------------------------------------------------------------------------------------------------
+# round 3: further whole-repository rewrites of the kind a clean-up pull request makes
+
+def _terminates(stmts):
+    """the block cannot fall through (ends in return / raise / continue / break, or an if/else whose arms all do)"""
+    if not stmts:
+        return False
+    last = stmts[-1]
+    if isinstance(last, (ast.Return, ast.Raise, ast.Continue, ast.Break)):
+        return True
+    if isinstance(last, ast.If) and last.orelse:
+        return _terminates(last.body) and _terminates(last.orelse)
+    return False
+
+
+class _ElseUnnester(ast.NodeTransformer):
+    """`if c: ...; return X  else: REST`  ->  `if c: ...; return X` followed by REST (guard-clause style)"""
+
+    def _block(self, stmts):
+        out = []
+        for st in stmts:
+            st = self.visit(st)
+            if isinstance(st, ast.If) and st.orelse and _terminates(st.body):
+                orelse = st.orelse
+                st.orelse = []
+                out.append(st)
+                out.extend(self._block_noop(orelse))
+            else:
+                out.append(st)
+        return out
+
+    def _block_noop(self, stmts):
+        # already visited
+        out = []
+        for st in stmts:
+            if isinstance(st, ast.If) and st.orelse and _terminates(st.body):
+                orelse = st.orelse
+                st.orelse = []
+                out.append(st)
+                out.extend(self._block_noop(orelse))
+            else:
+                out.append(st)
+        return out
+
+    def generic_visit(self, node):
+        for fld in ("body", "orelse", "finalbody"):
+            b = getattr(node, fld, None)
+            if isinstance(b, list) and b and isinstance(b[0], ast.stmt):
+                setattr(node, fld, self._block(b))
+        for h in getattr(node, "handlers", []) or []:
+            h.body = self._block(h.body)
+        return node
+
+
+class _ElseNester(ast.NodeTransformer):
+    """the reverse: after `if c: ...; return/raise` (no else) the rest of the block moves into an `else:`"""
+
+    def _block(self, stmts):
+        stmts = [self.visit(s) for s in stmts]
+        for i, st in enumerate(stmts):
+            if isinstance(st, ast.If) and not st.orelse and _terminates(st.body) and i + 1 < len(stmts):
+                rest = stmts[i + 1:]
+                if any(isinstance(r, (ast.FunctionDef, ast.ClassDef)) for r in rest):
+                    continue
+                st.orelse = self._renest(rest)
+                return stmts[:i + 1]
+        return stmts
+
+    def _renest(self, stmts):
+        for i, st in enumerate(stmts):
+            if isinstance(st, ast.If) and not st.orelse and _terminates(st.body) and i + 1 < len(stmts):
+                st.orelse = self._renest(stmts[i + 1:])
+                return stmts[:i + 1]
+        return stmts
+
+    def generic_visit(self, node):
+        for fld in ("body", "orelse", "finalbody"):
+            b = getattr(node, fld, None)
+            if isinstance(b, list) and b and isinstance(b[0], ast.stmt):
+                setattr(node, fld, self._block(b))
+        for h in getattr(node, "handlers", []) or []:
+            h.body = self._block(h.body)
+        return node
+
+
+class _GuardSplitter(ast.NodeTransformer):
+    """`if a or b: raise E(...)` -> `if a: raise E(...)` `if b: raise E(...)` (the raise ends the block either way)"""
+
+    def _block(self, stmts):
+        out = []
+        for st in stmts:
+            st = self.visit(st)
+            if (isinstance(st, ast.If) and not st.orelse and len(st.body) == 1 and isinstance(st.body[0], ast.Raise)
+                    and isinstance(st.test, ast.BoolOp) and isinstance(st.test.op, ast.Or)):
+                for v in st.test.values:
+                    out.append(ast.If(test=v, body=[st.body[0]], orelse=[]))
+            else:
+                out.append(st)
+        return out
+
+    def generic_visit(self, node):
+        for fld in ("body", "orelse", "finalbody"):
+            b = getattr(node, fld, None)
+            if isinstance(b, list) and b and isinstance(b[0], ast.stmt):
+                setattr(node, fld, self._block(b))
+        for h in getattr(node, "handlers", []) or []:
+            h.body = self._block(h.body)
+        return node
+
+
+class _KwReverser(ast.NodeTransformer):
+    """keyword arguments of every call in reverse order (their values are side-effect free in this code base)"""
+
+    def visit_Call(self, node):
+        self.generic_visit(node)
+        if len(node.keywords) > 1 and all(k.arg is not None for k in node.keywords):
+            node.keywords = list(reversed(node.keywords))
+        return node
+
+
+class _ArgHoister(ast.NodeTransformer):
+    """every call that is the whole right-hand side of a simple assignment / return gets its non-trivial arguments
+    bound to fresh temporaries first, in evaluation order (`r = f(g(x), k=h(y))` -> `_t1 = g(x); _t2 = h(y); r = f(_t1, k=_t2)`)"""
+
+    def __init__(self):
+        self.n = 0
+
+    def _simple(self, e):
+        return isinstance(e, (ast.Name, ast.Constant)) or (isinstance(e, ast.Attribute) and self._simple(e.value)) \
+            or (isinstance(e, ast.UnaryOp) and isinstance(e.operand, ast.Constant))
+
+    def _pure_callee(self, f):
+        # evaluating the callee expression before the arguments must not matter: a name or a dotted name
+        return self._simple(f)
+
+    def _hoist(self, call, pre):
+        if not isinstance(call, ast.Call) or not self._pure_callee(call.func):
+            return
+        if any(isinstance(a, ast.Starred) for a in call.args) or any(k.arg is None for k in call.keywords):
+            return
+        for i, a in enumerate(call.args):
+            if not self._simple(a) and not isinstance(a, (ast.Lambda, ast.GeneratorExp)):
+                self.n += 1
+                nm = f"_hoisted{self.n}"
+                pre.append(ast.Assign(targets=[ast.Name(id=nm, ctx=ast.Store())], value=a))
+                call.args[i] = ast.Name(id=nm, ctx=ast.Load())
+        for k in call.keywords:
+            if not self._simple(k.value) and not isinstance(k.value, (ast.Lambda, ast.GeneratorExp)):
+                self.n += 1
+                nm = f"_hoisted{self.n}"
+                pre.append(ast.Assign(targets=[ast.Name(id=nm, ctx=ast.Store())], value=k.value))
+                k.value = ast.Name(id=nm, ctx=ast.Load())
+
+    def _block(self, stmts):
+        out = []
+        for st in stmts:
+            st = self.visit(st)
+            pre = []
+            if isinstance(st, ast.Assign) and len(st.targets) == 1 and isinstance(st.targets[0], ast.Name):
+                self._hoist(st.value, pre)
+            elif isinstance(st, ast.Return) and st.value is not None:
+                self._hoist(st.value, pre)
+            out.extend(pre)
+            out.append(st)
+        return out
+
+    def visit_FunctionDef(self, node):
+        saved = self.n
+        self.n = 0
+        node.body = self._block(node.body)
+        self.n = saved
+        return node
+
+    def visit_ClassDef(self, node):
+        node.body = [self.visit(s) for s in node.body]
+        return node
+
+    def visit_Module(self, node):
+        node.body = [self.visit(s) for s in node.body]
+        return node
+
+    def generic_visit(self, node):
+        for fld in ("body", "orelse", "finalbody"):
+            b = getattr(node, fld, None)
+            if isinstance(b, list) and b and isinstance(b[0], ast.stmt):
+                setattr(node, fld, self._block(b))
+        for h in getattr(node, "handlers", []) or []:
+            h.body = self._block(h.body)
+        return node
+
+
+def _apply(cls):
+    def run(repo_root):
+        out = {}
+        for rel, src in package_sources(repo_root).items():
+            tree = cls().visit(ast.parse(src))
+            ast.fix_missing_locations(tree)
+            new = ast.unparse(tree)
+            compile(new, rel, "exec")
+            out[rel] = new
+        return out
+    run.__doc__ = cls.__doc__
+    return run
+
+
+EXTRA.update({"unnest-else": _apply(_ElseUnnester), "nest-else": _apply(_ElseNester), "split-guards": _apply(_GuardSplitter),
+              "reverse-keywords": _apply(_KwReverser), "hoist-arguments": _apply(_ArgHoister)})
